@@ -47,11 +47,17 @@ func eligibleCaller() bool {
 	var pcs [16]uintptr
 	n := runtime.Callers(3, pcs[:])
 	frames := runtime.CallersFrames(pcs[:n])
+	prims := 0 // frames of sync / sync/atomic / time seen so far (the primitive itself is the first)
 	for {
 		f, more := frames.Next()
 		name := f.Function
 		switch {
-		case strings.HasPrefix(name, "sync."), strings.HasPrefix(name, "sync/atomic."), strings.HasPrefix(name, "time."):
+		case strings.HasPrefix(name, "sync."), strings.HasPrefix(name, "sync/atomic."):
+			prims++
+			if prims > 1 {
+				return false // a primitive called by another primitive (RWMutex.Lock -> Mutex.Lock) is not a point of its own
+			}
+		case strings.HasPrefix(name, "time."):
 		case strings.HasPrefix(name, "github.com/tikv/pd/pkg/zzvrf.") && (strings.Contains(name, "schedHook") || strings.Contains(name, "ilPoint")):
 		case strings.HasPrefix(name, "github.com/tikv/pd/pkg/zzvrf."):
 			return false // the harness library's own locking is never a scheduling point
